@@ -13,7 +13,7 @@ from ..propkit import pool_map
 
 def gen_bodies(depth, rnd):
     """(template_lines, python_lines) pairs; python appends to list `out`"""
-    kinds = ["text", "expr", "if", "for", "while", "try", "block", "empty-if", "comment-if", "for-else"]
+    kinds = ["text", "expr", "if", "for", "while", "try", "block", "empty-if", "comment-if", "for-else", "try-2-except", "if-elif-elif", "with"]
     k = rnd.choice(kinds if depth > 0 else ["text", "expr", "block"])
     n = rnd.randrange(1000)
     if k == "text":
@@ -57,7 +57,29 @@ def gen_bodies(depth, rnd):
     if k == "try":
         return [pad + "% try:", "${1 // (x - x)}", pad + "% except ZeroDivisionError:"] + inner_t + [pad + "% endtry"], \
                ["try:", "    out.append(str(1 // (x - x)) + '\\n')", "except ZeroDivisionError:"] + ind(inner_p)
+    if k == "try-2-except":
+        t2, p2 = gen_bodies(depth - 1, rnd)
+        exc = rnd.choice(["${1 // (x - x)}", "${int('q')}"])
+        pexc = "out.append(str(1 // (x - x)) + '\\n')" if "//" in exc else "out.append(str(int('q')) + '\\n')"
+        return [pad + "% try:", exc, pad + "% except ZeroDivisionError:"] + inner_t + [pad + "% except (ValueError, KeyError) as err:"] + t2 + [pad + "% endtry"], \
+               ["try:", "    " + pexc, "except ZeroDivisionError:"] + ind(inner_p) + ["except (ValueError, KeyError) as err:"] + ind(p2)
+    if k == "if-elif-elif":
+        t2, p2 = gen_bodies(depth - 1, rnd)
+        t3, p3 = gen_bodies(depth - 1, rnd)
+        return [pad + "% if x > 50:"] + inner_t + [pad + "% elif x > 2:"] + t2 + [pad + "% elif x >= 0:"] + t3 + [pad + "% endif"], \
+               ["if x > 50:"] + ind(inner_p) + ["elif x > 2:"] + ind(p2) + ["elif x >= 0:"] + ind(p3)
+    if k == "with":
+        return [pad + "%% with cm(x) as w%d:" % n, "${w%d}" % n] + inner_t + [pad + "% endwith"], \
+               ["with cm(x) as w%d:" % n, "    out.append(str(w%d) + '\\n')" % n] + ind(inner_p)
     raise AssertionError(k)
+
+
+import contextlib
+
+
+@contextlib.contextmanager
+def _cm(v):
+    yield v * 2
 
 
 def one_case(seed):
@@ -69,14 +91,14 @@ def one_case(seed):
         t += a
         p += b
     src = "\n".join(t) + "\n"
-    env = {"x": rnd.randrange(0, 5), "out": []}
+    env = {"x": rnd.randrange(0, 5), "out": [], "cm": _cm}
     try:
         exec("\n".join(p), env)
         expected = "".join(env["out"])
     except Exception as e:
         return None          # the reference program itself fails: not a usable case
     try:
-        got = Template(src).render_unicode(x=rnd_x(seed))
+        got = Template(src).render_unicode(x=rnd_x(seed), cm=_cm)
     except Exception as e:
         return {"template": src, "python": p, "error": repr(e), "expected": expected}
     if got != expected:
